@@ -228,13 +228,22 @@ pub broadcast proof fn lemma_unfold(e: SymExpr, env: Env)
 {
 }
 
+/// `div_ceil` (free function in sym_expr.rs) uses bit tricks outside Verus' automation; its
+/// contract -- exact ceiling division -- is discharged over the full i32 x i32 domain by the Kani
+/// harness U-symexpr-k:div_ceil.exact and assumed here so that code calling it can be verified.
+#[verifier::external_body]
+pub fn div_ceil(lhs: i32, rhs: i32) -> (r: i32)
+    requires rhs != 0, in_i32(cdiv(lhs as int, rhs as int))
+    ensures r as int == cdiv(lhs as int, rhs as int)
+{ unimplemented!() }
+
 // ---------------------------------------------------------------- code under contract
 pub mod code_is_positive {
 use super::*;
 broadcast use {lemma_unfold, lemma_mul_nonneg, lemma_tdiv_bounds, lemma_cdiv_bounds};
 
 impl SymExpr {
-    //@extract kind=fn file=rten-shape-inference/src/sym_expr.rs within="impl SymExpr" name=is_positive
+    //@extract kind=fn file=rten-shape-inference/src/sym_expr.rs within="impl SymExpr" name=is_positive vis=pub
     //@| ensures r ==> sem_nonneg(*self), // @ob:is_positive.sound
     //@| decreases self
 }
@@ -247,7 +256,7 @@ use super::*;
 broadcast use {lemma_unfold, lemma_mul_box, lemma_tdiv_bounds, lemma_cdiv_bounds};
 
 impl SymExpr {
-    //@extract kind=fn file=rten-shape-inference/src/sym_expr.rs within="impl SymExpr" name=range
+    //@extract kind=fn file=rten-shape-inference/src/sym_expr.rs within="impl SymExpr" name=range vis=pub
     //@| ensures sem_in_range(*self, r.0 as int, r.1 as int), // @ob:range.sound
     //@| decreases self
 }
